@@ -58,3 +58,8 @@ func VerifServerAuthenticate(config *ServerConfig, sessionID []byte, remote net.
 	}
 	return s.serverAuthenticate(&fullConf)
 }
+
+// VerifBuildDataSignedForAuth exposes buildDataSignedForAuth (the bytes a publickey signature covers).
+func VerifBuildDataSignedForAuth(sessionID []byte, user, service, method, algo string, pubKey []byte) []byte {
+	return buildDataSignedForAuth(sessionID, userAuthRequestMsg{User: user, Service: service, Method: method}, algo, pubKey)
+}
